@@ -222,7 +222,8 @@ def run_pairs(f, P):
             zero_defs = [d for d in defs.get(n, []) if d[0] == 'st' and
                          b.blocks[d[1]]['st'][d[2]]['rv']['k'] == 'use' and
                          b.blocks[d[1]]['st'][d[2]]['rv']['ops'][0].get('v') == '0']
-            if len(zero_defs) < 2:
+            a_defs = [d for d in defs.get(a, []) if d[0] == 'st']
+            if len(zero_defs) < 2 and len(a_defs) < 3:
                 continue
             inc_srcs = set()
             for d in defs.get(n, []):
@@ -242,6 +243,25 @@ def run_pairs(f, P):
                 def __init__(self):
                     self.bad = {}
                     self.resets = set()
+                    self.restarts = {}      # block of a start re-assignment while counted -> ok?
+
+                def on_switch(self, ip, fr, tok, tags, bi, term, target):
+                    # `n == 0` / `n != 0` decisions refine what is known about the count
+                    dpl = term['d'].get('pl') if term['d']['k'] in ('copy', 'move') else None
+                    if dpl is None or dpl['p']:
+                        return tok
+                    for st_ in fr.body.blocks[bi]['st']:
+                        if st_['k'] == 'assign' and st_['pl']['l'] == dpl['l'] and st_['rv']['k'] == 'bin' and st_['rv']['op'] in ('Eq', 'Ne'):
+                            o0, o1 = st_['rv']['ops']
+                            if o1['k'] == 'const' and o1.get('v') == '0' and o0['k'] in ('copy', 'move') and not o0['pl']['p'] \
+                                    and _through_copy(fr.body, defs, o0['pl']['l']) == n:
+                                # which discriminant value leads to `target`?
+                                vals = [int(x['v']) for x in term['ts'] if x['t'] == target]
+                                is_true = (vals and vals[0] != 0) or (not vals and all(int(x['v']) == 0 for x in term['ts']))
+                                zero = is_true if st_['rv']['op'] == 'Eq' else not is_true
+                                if zero:
+                                    return tok - {'GROWN'}
+                    return tok
 
                 def initial(self):
                     return frozenset()
@@ -258,22 +278,41 @@ def run_pairs(f, P):
                     l = s['pl']['l']
                     rv = s['rv']
                     if l == n and rv['k'] == 'use' and rv['ops'][0].get('v') == '0':
+                        tok = frozenset(x for x in tok if x != 'GROWN' and not (isinstance(x, tuple) and x[0] == 'RESTART'))
                         if 'INIT' in tok:
                             self.resets.add(bi)
                             return tok | {('STALE', bi)}
                         return tok | {'INIT'}
+                    if l == n and rv['k'] == 'use' and rv['ops'][0].get('v') == '0':
+                        pass
                     if l == a:
-                        return frozenset(x for x in tok if not (isinstance(x, tuple) and x[0] == 'STALE'))
+                        out_ = frozenset(x for x in tok if not (isinstance(x, tuple) and x[0] == 'STALE'))
+                        if 'AINIT' in tok and 'GROWN' in tok:
+                            # the run start is re-established while clusters of the old run are still counted
+                            self.restarts.setdefault(bi, True)
+                            out_ = out_ | {('RESTART', bi)}
+                        return out_ | {'AINIT'}
                     if l == n and rv['k'] == 'use' and rv['ops'][0]['k'] in ('copy', 'move') and rv['ops'][0]['pl']['l'] in inc_srcs:
                         for x in tok:
                             if isinstance(x, tuple) and x[0] == 'STALE':
                                 self.bad.setdefault(x[1], bi)
+                            if isinstance(x, tuple) and x[0] == 'RESTART':
+                                self.restarts[x[1]] = False
+                        return tok | {'GROWN'}
                     return tok
             d = D()
             ip = Interp(P, d)
             # awaits are leaf events here: do not descend
             ip.one_fut = lambda fr, bi, tok, tags, t, fu: [(tok, None)]
             ip.run(b)
+            for r, okr in sorted(d.restarts.items()):
+                out.append((short(b.path), b.where(r), okr,
+                            ('%s is re-assigned while %s is non-zero and %s is reset before it grows again' % (b.lname(a), b.lname(n), b.lname(n)))
+                            if okr else
+                            ('%s is re-assigned at %s while %s still counts the old run, and %s grows again without being reset: '
+                             'the returned run is longer than what was taken' % (b.lname(a), b.where(r), b.lname(n), b.lname(n)))))
+            if not d.resets and not d.restarts:
+                out.append((short(b.path), b.where(0), True, 'no restart of the (%s, %s) run' % (b.lname(a), b.lname(n))))
             for r in sorted(d.resets):
                 ok = r not in d.bad
                 out.append((short(b.path), b.where(r), ok,
